@@ -101,6 +101,18 @@ CHECKS = {
    text="The gosqlx binary is rebuilt from the tree under test and run in scratch directories. (1) cli_verdict: 1-4 generated files (valid, multi-statement, corrupted, empty, stray semicolons, dialect-only syntax) x validate/format/lint/parse flag combinations: exit status 0 iff the library accepts every input under the same options (lint: no failing-severity finding by the same rule set), check-only modes leave hash/mode/mtime untouched, JSON and SARIF reports parse, have consistent counts and name exactly the failing inputs. (2) format_modes_consistent: text output == concatenation of per-file outputs == what -i writes; --check exits 0 iff -i changes nothing; -o and stdin agree; a file whose processing fails is never rewritten. (3) inplace_faults: for format -i and lint --auto-fix, for EVERY k in 0..len(new) the write fails after exactly k bytes (short write then EFBIG, SIGXFSZ blocked and default), and the process is SIGKILLed before its n-th file-related system call for every n; afterwards the file is the complete original or the complete new content.",
    note="Trusted: RLIMIT_FSIZE and strace injection as fault models (a kill lands on a system-call boundary; a torn single write() inside the kernel is modelled by the short-write case); the library verdict as reference; empty and blank-only files are outside the compared verdict because the library's own entry points disagree on them; whether the CLI formatter supports a statement type the parser accepts is not compared.",
    design="4/C19"),
+ "C01": dict(
+   technique="property-based testing and fuzzing for totality: generated byte strings (hostile-dictionary soup, model-grammar statements valid/prefix/corrupted/mutated, repository corpus plain/mutated/spliced, nesting towers, raw bytes) and generated parser-token sequences no tokenizer produces, each driven through every public entry point and every tree consumer, with panics, hangs and process death as the oracle; runs contained in child processes",
+   level="exploration",
+   text="Each case runs ~45 entry points (tokenizer x3, gosqlx.* x10, parser.* x8, model-token parser methods, formatter, both scanners, linter and every rule's Fix) and, on every tree or recovered statement list obtained, 16 consumers (SQL, Format x3, CLI formatter x2, Inspect, Walk, Extract* x6, Scan x2, ReleaseAST), crossed with 12 dialect values and strict mode. Token cases (EOF missing, every prefix, Type-less, re-typed, random, EOF in the middle, empty, nil; position mappings shorter/longer/nil; arbitrary spans) go through Parser.Parse/ParseContext/ParseWithRecovery/ParseWithPositions and the five model-token methods. A panic fails the case and names the entry point; a call that does not return in 60 s is a hang; the whole run is journaled inside a child process so a runtime fatal error is attributed to the case that caused it and re-confirmed alone.",
+   note="Trusted: the 60 s hang budget (generated inputs need milliseconds); MustParse is documented to panic and is excluded; inputs near the 10 MiB limit are exercised in C02/C20, not here.",
+   design="4/C01"),
+ "C02": dict(
+   technique="property-based testing over a catalogue of self-embedding productions: exhaustive enumeration of every production x context x depth class plus random mixed cycles, a stateful history check of the limit on reused/pooled/recovery parsers against a fresh-parser oracle, exact-boundary enumeration of the byte and token limits, deep cases run in child processes under a goroutine stack cap",
+   level="exploration",
+   text="57 productions (expression->expression, expression->query, query->expression, query->query, table-reference forms) under 18 statement contexts. A case is a kind-consistent cycle of productions repeated to depth d. Oracle: the same chain at depth 2 and 12 must be accepted (otherwise the family is outside the accepted language and is listed, not reported); at d > MaxRecursionDepth every entry point returns an error; bracket-free continuations (UNION ALL chains) need not be rejected but must survive; depths >= 20000 up to the largest the size/token limits allow run in a child under debug.SetMaxStack(32 MiB), which must survive. limit_over_history: sequences of towers on ONE parser (reused, pooled, recovery script) must get the fresh-parser verdict each time. size_and_token_limits: MaxInputSize-1/+0/+1 bytes in five shapes and MaxTokens-1/+0/+1 tokens in three layouts x six kinds of trailing bytes: E1006/E1007 exactly when over the limit, through four entry points.",
+   note="Trusted: the catalogue was built by reading the parser's recursive call paths and cannot be proved complete (DESIGN.md section 7); a level is one production application, unparenthesised junctions are parenthesised so the count is conservative; serialisers are outside the stack cap because they legitimately recurse on tree depth.",
+   design="4/C02"),
 }
 
 def main():
